@@ -11,7 +11,8 @@ Statement AST (JSON-able):
         | {"name", "kind": "const", "value": reified}
   defval: ["lit", reified] | ["factory", reified]       (factory: `lambda: <value>`)
   attr kind: "bool" | "list" | "dict" | "int" | "str" | "type"
-Program step: ["def", stmt] | ["mixin", name] | ["derive", src, op, cname|None]
+Program step: ["def", stmt] | ["mixin", name] | ["derive", src, op, cname|None] | ["derive", src, op, cname|None, "method"]
+  (the 5-element form spells omit/pick as the classmethod: `Src.omit('a', class_name=...)`)
   op: ["partial"] | ["allreq"] | ["extend"] | ["omit", [names]] | ["pick", [names]]
 """
 import inspect
@@ -25,8 +26,8 @@ IMPORTS = (G.IMPORTS +
            "from typedpy import (Partial, Omit, Pick, Extend, AllFieldsRequired, FinalStructure, AbstractStructure, "
            "Constant, keys_of, ImmutableField, Field)\nimport enum\n")
 
-ATTR_SRC = {"bool": "True", "list": "[1, 2]", "dict": "{'a': 1}", "int": "5", "str": "'s'", "type": "int"}
-ATTR_COQ = {"bool": "UBool", "list": "UList", "dict": "UDict", "int": "UInt", "str": "UStr", "type": "UType"}
+ATTR_SRC = {"bool": "True", "boolf": "False", "list": "[1, 2]", "dict": "{'a': 1}", "int": "5", "str": "'s'", "type": "int"}
+ATTR_COQ = {"bool": "UBool", "boolf": "UBool", "list": "UList", "dict": "UDict", "int": "UInt", "str": "UStr", "type": "UType"}
 
 
 # ------------------------------------------------------------------ python source
@@ -91,7 +92,7 @@ OP_CLS = {"partial": "Partial", "allreq": "AllFieldsRequired", "extend": "Extend
 
 
 def derived_name(step):
-    _, src, op, cname = step
+    _, src, op, cname = step[:4]
     return cname or (OP_CLS[op[0]] + src)
 
 
@@ -100,8 +101,11 @@ def step_src(step):
         return stmt_src(step[1])
     if step[0] == "mixin":
         return "class %s:\n    def hello(self):\n        return 1\n" % step[1]
-    _, src, op, cname = step
+    _, src, op, cname = step[:4]
     name = derived_name(step)
+    if len(step) > 4 and step[4] == "method" and op[0] in ("omit", "pick"):
+        args = ", ".join(["%r" % n for n in op[1]] + (["class_name=%r" % cname] if cname else []))
+        return "%s = %s.%s(%s)\n" % (name, src, op[0], args)
     if op[0] in ("omit", "pick"):
         names = "(" + "".join("%r, " % n for n in op[1]) + ")"
         args = "%s, %s" % (src, names) + (", %r" % cname if cname else "")
@@ -304,8 +308,8 @@ def emit_case(prog, outcomes, guards):
     for st, o in zip(prog, outcomes):
         steps.append("(%s, %s)" % (emit_action(st), emit_obs(o)))
     return ("{| dc_tbl := %s; dc_guards := {| gd_block_unknown_consts := %s; gd_block_non_typedpy := %s; "
-            "gd_additional_default := true |}; dc_prog := %s |}") % (
-        G.emit_table(tbl), E.blit(guards[0]), E.blit(guards[1]), E.lst(["\n   " + s for s in steps]))
+            "gd_additional_default := %s |}; dc_prog := %s |}") % (
+        G.emit_table(tbl), E.blit(guards[0]), E.blit(guards[1]), E.blit(guards[2] if len(guards) > 2 else True), E.lst(["\n   " + s for s in steps]))
 
 
 HEADER = """From Coq Require Import ZArith NArith String List Bool. Import ListNotations.
